@@ -395,7 +395,7 @@ Definition run_act (fx : fixes) (s : st) (a : act) : option (st * list act) :=
       end
   (* ---- sock_close ---- *)
   | ASockClose2 role =>
-      if k_closed k then Some (s, [ASockRele; ARet USockClose C_OK role])
+      if k_closed k then Some (s, [ASockRele; ARet USockClose C_OK (if role =? R_SHUT then R_SHUT else R_LATE)])
       else Some (set_k s (kset_closed k), [AWaitRefs; ASockDestroy; ARet USockClose C_OK R_DESTROY])
   | AWaitRefs => if (k_ref k <=? 1) && negb (any_ctx_onlist s) then Some (s, []) else None
   | ASockDestroy =>
@@ -488,7 +488,7 @@ Definition run_act (fx : fixes) (s : st) (a : act) : option (st * list act) :=
       match nth_error (eps s) e with
       | Some x =>
           if e_freed x then Some (add_bad s B_USE_FREED, [])
-          else if negb (e_closed x) then Some (add_bad s B_ORDER, [])      (* only ever called by nni_dialer_close after d_closed was set *)
+          else if negb (e_closed x && e_stopped x) then Some (add_bad s B_ORDER, [])   (* only ever called by nni_dialer_close after d_closed was set and nni_dialer_stop has returned *)
           else if e_onlist x then Some (set_eps s (upd (eps s) e (fun x => eset_onlist x false)), [])
           else Some (add_bad s B_NOT_ONLIST, [])
       | None => Some (s, [])
@@ -568,6 +568,7 @@ Definition run_act (fx : fixes) (s : st) (a : act) : option (st * list act) :=
       match nth_error (ctxs s) c with
       | Some x =>
           if c_freed x then Some (add_bad s B_USE_FREED, [])
+          else if negb (c_pub x) then Some (add_bad s B_ORDER, [])                  (* the application cannot know the id yet *)
           else if has_aio a0 (subm s) then Some (s, [])
           else if blocks then Some (set_subm (set_ctxs s (upd (ctxs s) c (fun x => cset_pend x (c_pend x ++ [a0])))) (subm s ++ [a0]), [])
           else Some (set_subm (set_done s (done s ++ [(a0, C_OK)])) (subm s ++ [a0]), [])
